@@ -12,6 +12,8 @@
 //        mal <c> | emp <c>                not-JSON payload | empty payload
 //        ban <ip> | unban <ip> | bl <ip> | unbl <ip> | refill <ip>
 //        banp <ip> | bans <ip>            permanent ban | temporary ban that has lapsed before the next event
+//        reban <ip> <p|t>                 lapsed ban, IsBanned starts its async unban, the address is banned anew (permanently |
+//                                         for 1 h) before that unban runs
 //        blr <g> | unblr <g>               blacklist / remove the CIDR range g (covers addresses 2g and 2g+1)
 //        restart                          a new IPManager over the same storage replaces the live one
 //        exp <k> | del <k> | strip <k>    credential expiry | config deleted | config without encrypted key
@@ -129,6 +131,8 @@ type stack struct {
 	lastCh  []int
 	prevCh  []int
 }
+
+var rebanMu sync.Mutex
 
 var masterKey = base64.StdEncoding.EncodeToString(bytes.Repeat([]byte{0x5a}, 32))
 var otherMasterKey = base64.StdEncoding.EncodeToString(bytes.Repeat([]byte{0xa5}, 32))
@@ -661,6 +665,33 @@ func (st *stack) step(ev []string) (string, error) {
 		}
 		st.ipm.RemoveFromBlacklist(rangeStr(g))
 		return "-", nil
+	case "reban":
+		// the interleaving "expired temporary ban not yet swept; IsBanned says no and starts its asynchronous unban; the
+		// address is banned anew BEFORE that unban runs; then the unban runs": the new ban must survive.
+		// One P and no yield between IsBanned and BanIP keep the spawned goroutine from running in between.
+		i, err := argn(1)
+		if err != nil || i < 0 || len(ev) != 3 || (ev[2] != "p" && ev[2] != "t") {
+			return "", fmt.Errorf("bad event %v", ev)
+		}
+		ip := ipStr(i)
+		st.bfp.BanIP(ip, time.Nanosecond, "verif-short")
+		for t0 := time.Now(); time.Since(t0) < 5*time.Microsecond; {
+		}
+		rebanMu.Lock()
+		old := runtime.GOMAXPROCS(1)
+		st.bfp.IsBanned(ip)
+		if ev[2] == "p" {
+			st.bfp.BanIP(ip, 0, "verif-permanent")
+		} else {
+			st.bfp.BanIP(ip, time.Hour, "verif")
+		}
+		runtime.GOMAXPROCS(old)
+		rebanMu.Unlock()
+		for j := 0; j < 20; j++ { // let the asynchronous unban run
+			runtime.Gosched()
+		}
+		time.Sleep(300 * time.Microsecond)
+		return "-", nil
 	case "banp", "bans":
 		i, err := argn(1)
 		if err != nil || i < 0 {
@@ -1070,7 +1101,12 @@ func genRandom(r *vc.Rand, n int, emit func(string, string)) {
 			case x < 79:
 				evs = append(evs, fmt.Sprintf("emp %d", c))
 			case x < 82:
-				evs = append(evs, fmt.Sprintf("%s %d", vc.Pick(r, []string{"ban", "unban", "ban", "unban", "bl", "unbl", "banp", "bans", "bans"}), r.Intn(nip)))
+				bk := vc.Pick(r, []string{"ban", "unban", "ban", "unban", "bl", "unbl", "banp", "bans", "bans", "reban"})
+				if bk == "reban" {
+					evs = append(evs, fmt.Sprintf("reban %d %s", r.Intn(nip), vc.Pick(r, []string{"p", "t"})))
+				} else {
+					evs = append(evs, fmt.Sprintf("%s %d", bk, r.Intn(nip)))
+				}
 			case x < 84:
 				switch r.Intn(4) {
 				case 0:
